@@ -72,7 +72,7 @@ func mergeStakePoolRewardsEvents() *eventsMergerImpl[dbs.StakePoolReward] {
 }
 
 func mergeStakePoolPenaltyEvents() *eventsMergerImpl[dbs.StakePoolReward] {
-	return newEventsMerger[dbs.StakePoolReward](TagStakePoolPenalty, withUniqueEventOverwrite())
+	return newEventsMerger[dbs.StakePoolReward](TagStakePoolPenalty, withProviderRewardsPenaltiesAdded())
 }
 
 // withProviderRewardsPenaltiesAdded is an event merger middleware that merge two
